@@ -176,6 +176,8 @@ class Interp:
             if k == 'ref':
                 return True
             raise OutsideSubset("truth of symbolic %s" % k)
+        if type(v).__name__ == 'SStr':
+            return v.nonempty()
         if isinstance(v, IdSet):
             return len(v.items) > 0
         if isinstance(v, GuardedList):
@@ -267,6 +269,17 @@ class Interp:
             return ExcVal(f, args)
         if isinstance(f, Native) or isinstance(getattr(f, '__self__', None), Native):
             return f(*args, **kwargs)
+        import re as _re
+        from . import sstr as _sstr
+        if isinstance(getattr(f, '__self__', None), _re.Pattern) and _sstr.has_sstr(args):
+            pat, meth = f.__self__.pattern, f.__name__
+            if pat == r'stage([0-9]+)' and meth in ('match', 'fullmatch'):
+                return _sstr.stage_regex(args[0], full=(meth == 'fullmatch'))
+            if meth == 'search' and '%' in pat:
+                return _sstr.variable_pattern_search(args[0])
+            if meth == 'search' and pat == r'\[(\d+)\]':
+                return _sstr.needs_char_search(args[0], '[')
+            raise OutsideSubset("regular expression %r on a structured string" % pat)
         from . import models
         m = models.BUILTINS.get(f) if _hashable(f) else None
         if m is None and models._is_repo_deep_copy(f):
